@@ -45,7 +45,7 @@ def explore(ctx, art):
     # ... and (datagram server) with the housekeeping sweep busy in an inactivity callback of the application (100 ms) when
     # Stop() comes: the sweep holds its snapshot of the connection table, so Stop() and the sweep both find the same closed
     # connections and both shut their sessions down
-    lines += ["case udp srvstop k%di stop" % k for k in (2, 3, 3, 4)]
+    lines += ["case udp srvstop k%di stop" % k for k in (2, 3, 3)]
     # ... and a datagram server that got its context from the application (options.WithContext) and is shut down by
     # cancelling it (no Stop()), with a request of the server's own in flight on every peer's connection (acknowledged,
     # never answered, context without deadline)
